@@ -293,6 +293,11 @@ func (e *l1env) live() string {
 	for _, b := range e.pool {
 		s = append(s, hx([]byte(b.addr)))
 	}
+	// an address with an empty host names the local host for the kernel: ":p" reaches the
+	// listener on 127.0.0.1:p (the interpretation of address strings is the environment's)
+	for _, b := range e.pool {
+		s = append(s, hx([]byte(fmt.Sprintf(":%d", b.port))))
+	}
 	return strings.Join(s, ",")
 }
 
@@ -385,6 +390,15 @@ func finishProcess(e *l1env, tr *trace, mt *memTransport, tun *protocol.Tunnel, 
 			host = append(host, bc.bytes()...)
 		}
 		b.reset()
+	}
+	// the listener is identified by its own address; when the dial string had an empty host
+	// (":p") report the connection under the string that was dialed
+	if ts := tun.TargetServer; strings.HasPrefix(ts, ":") {
+		for i, t := range tr.toks {
+			if t == "D:"+hx([]byte("127.0.0.1"+ts)) {
+				tr.toks[i] = "D:" + hx([]byte(ts))
+			}
+		}
 	}
 	tr.toks = append(tr.toks, "H:"+hx(host))
 	tr.toks = append(tr.toks, "N:"+strconv.Itoa(mt.reads))
